@@ -1,12 +1,17 @@
 package interp
 
 import (
+	"go/token"
+	"go/types"
 	"math"
 	"reflect"
+	"regexp"
 	"strconv"
 	"strings"
 	"unicode"
 	"unicode/utf8"
+
+	"golang.org/x/tools/go/ssa"
 )
 
 // Standard-library leaves that the code under test does not call today but that
@@ -156,5 +161,165 @@ func init() {
 			}
 		}
 		return string(out)
+	}
+}
+
+func init() {
+	rx := func(a value) *regexp.Regexp { return (*a.(*value)).(native).v.(*regexp.Regexp) }
+	// further regexp methods, concrete arguments only (the symbolic variants of
+	// the methods the repository uses are in strvec.go)
+	natRx := func(name string, f func(re *regexp.Regexp, a []value) value) {
+		if intrinsics[name] != nil {
+			return
+		}
+		intrinsics[name] = func(fr *frame, a []value) value {
+			for _, x := range a[1:] {
+				if isSym(x) || isSymStr(x) {
+					panic(unsupported{"symbolic argument to " + name})
+				}
+			}
+			return f(rx(a[0]), a)
+		}
+	}
+	natRx("(*regexp.Regexp).FindStringIndex", func(re *regexp.Regexp, a []value) value {
+		return fromNative(reflect.ValueOf(re.FindStringIndex(conc(a[1]))))
+	})
+	natRx("(*regexp.Regexp).FindStringSubmatchIndex", func(re *regexp.Regexp, a []value) value {
+		return fromNative(reflect.ValueOf(re.FindStringSubmatchIndex(conc(a[1]))))
+	})
+	natRx("(*regexp.Regexp).FindAllStringSubmatchIndex", func(re *regexp.Regexp, a []value) value {
+		return fromNative(reflect.ValueOf(re.FindAllStringSubmatchIndex(conc(a[1]), int(asInt64(a[2])))))
+	})
+	natRx("(*regexp.Regexp).ReplaceAllLiteralString", func(re *regexp.Regexp, a []value) value {
+		return re.ReplaceAllLiteralString(conc(a[1]), conc(a[2]))
+	})
+	natRx("(*regexp.Regexp).NumSubexp", func(re *regexp.Regexp, a []value) value { return re.NumSubexp() })
+	natRx("(*regexp.Regexp).String", func(re *regexp.Regexp, a []value) value { return re.String() })
+	intrinsics["regexp.QuoteMeta"] = func(fr *frame, a []value) value { return regexp.QuoteMeta(conc(a[0])) }
+	intrinsics["regexp.Compile"] = func(fr *frame, a []value) value {
+		re, err := regexp.Compile(conc(a[0]))
+		if err != nil {
+			return tuple{(*value)(nil), mkErr(err.Error())}
+		}
+		v := value(native{re})
+		return tuple{&v, iface{}}
+	}
+	intrinsics["regexp.MatchString"] = func(fr *frame, a []value) value {
+		ok, err := regexp.MatchString(conc(a[0]), conc(a[1]))
+		if err != nil {
+			return tuple{false, mkErr(err.Error())}
+		}
+		return tuple{ok, iface{}}
+	}
+	// strings.Replacer (concrete)
+	intrinsics["strings.NewReplacer"] = func(fr *frame, a []value) value {
+		var pairs []string
+		for _, x := range a[0].([]value) {
+			pairs = append(pairs, conc(x))
+		}
+		v := value(native{strings.NewReplacer(pairs...)})
+		return &v
+	}
+	intrinsics["(*strings.Replacer).Replace"] = func(fr *frame, a []value) value {
+		return (*a[0].(*value)).(native).v.(*strings.Replacer).Replace(conc(a[1]))
+	}
+	// time: opaque
+	intrinsics["time.Since"] = func(fr *frame, a []value) value { return int64(0) }
+	intrinsics["(time.Duration).String"] = func(fr *frame, a []value) value { return "0s" }
+	intrinsics["(time.Duration).Seconds"] = func(fr *frame, a []value) value { return float64(0) }
+	intrinsics["(time.Duration).Milliseconds"] = func(fr *frame, a []value) value { return int64(0) }
+	// errors
+	intrinsics["errors.Unwrap"] = func(fr *frame, a []value) value { return iface{} }
+	intrinsics["errors.Is"] = func(fr *frame, a []value) value {
+		x, y := a[0].(iface), a[1].(iface)
+		return x.t != nil && y.t != nil && x.v == y.v
+	}
+	// sync/atomic on boxed cells (single-threaded interpretation; classified as synchronised)
+	for _, n := range []string{"Int32", "Int64", "Uint32", "Uint64"} {
+		n := n
+		intrinsics["sync/atomic.Add"+n] = func(fr *frame, a []value) value {
+			p := a[0].(*value)
+			*p = binop(token.ADD, types.Typ[map[string]types.BasicKind{"Int32": types.Int32, "Int64": types.Int64, "Uint32": types.Uint32, "Uint64": types.Uint64}[n]], *p, a[1])
+			return *p
+		}
+		intrinsics["sync/atomic.Load"+n] = func(fr *frame, a []value) value { return *a[0].(*value) }
+		intrinsics["sync/atomic.Store"+n] = func(fr *frame, a []value) value { *a[0].(*value) = a[1]; return nil }
+	}
+}
+
+func init() {
+	// sync.Map: contents kept as an ordered map in struct slot 0 (the real
+	// fields are never touched by interpreted code). Accesses are synchronised
+	// by definition, so they are not race candidates; the state they keep across
+	// calls is what the history harnesses observe.
+	smap := func(p value) *omap {
+		s := (*p.(*value)).(structure)
+		if m, ok := s[0].(*omap); ok {
+			return m
+		}
+		m := &omap{kt: types.NewInterfaceType(nil, nil)}
+		s[0] = m
+		return m
+	}
+	intrinsics["(*sync.Map).Load"] = func(fr *frame, a []value) value {
+		syncDepth++
+		defer func() { syncDepth-- }()
+		v, ok := smap(a[0]).lookup(a[1])
+		if !ok {
+			return tuple{iface{}, false}
+		}
+		return tuple{v, true}
+	}
+	intrinsics["(*sync.Map).Store"] = func(fr *frame, a []value) value {
+		syncDepth++
+		defer func() { syncDepth-- }()
+		smap(a[0]).insert(a[1], a[2])
+		return nil
+	}
+	intrinsics["(*sync.Map).LoadOrStore"] = func(fr *frame, a []value) value {
+		syncDepth++
+		defer func() { syncDepth-- }()
+		m := smap(a[0])
+		if v, ok := m.lookup(a[1]); ok {
+			return tuple{v, true}
+		}
+		m.insert(a[1], a[2])
+		return tuple{a[2], false}
+	}
+	intrinsics["(*sync.Map).Delete"] = func(fr *frame, a []value) value {
+		syncDepth++
+		defer func() { syncDepth-- }()
+		smap(a[0]).delete(a[1])
+		return nil
+	}
+	// sync.Pool: Get returns the most recently Put object if there is one (the
+	// schedule under which a missing reset shows), else New().
+	intrinsics["(*sync.Pool).Put"] = func(fr *frame, a []value) value {
+		s := (*a[0].(*value)).(structure)
+		stack, _ := s[0].([]value)
+		s[0] = append(stack, a[1])
+		return nil
+	}
+	intrinsics["(*sync.Pool).Get"] = func(fr *frame, a []value) value {
+		s := (*a[0].(*value)).(structure)
+		if stack, ok := s[0].([]value); ok && len(stack) > 0 {
+			v := stack[len(stack)-1]
+			s[0] = stack[:len(stack)-1]
+			return v
+		}
+		// field New is the last field of sync.Pool
+		if nf := s[len(s)-1]; nf != nil {
+			switch f := nf.(type) {
+			case *ssa.Function:
+				if f != nil {
+					return call(fr.i, fr, 0, f, nil)
+				}
+			case *closure:
+				if f != nil {
+					return call(fr.i, fr, 0, f, nil)
+				}
+			}
+		}
+		return iface{}
 	}
 }
